@@ -210,8 +210,7 @@ claim('C07',
       'Lean 4 proof of the deterministic corollaries and exact rates + search for accusations on the implementation',
       'DESIGN.md section 5 C07, section 7')
 
-NOT_CLAIMED['C17'] = ('partly built: Props/C17.lean (single checks are pointwise; BatchGCD permutation / healthy-addition / set-function) and harness/corr/c17.py '
-                      '(RSA single checks alone vs batch vs position vs earlier calls; CheckGCD permutations) are green; EC / ECDSA halves (table history, issuer grouping) pending')
+# C17 claimed below
 
 claim('C19',
       'Lean theorems (Props/C19.lean, 94 kernel-checked statements, no size bounds). '
@@ -231,8 +230,7 @@ claim('C19',
       'Lean 4 proofs over an executable model + differential correspondence with the Python implementation; defects carried as pinned/repaired model variants',
       'DESIGN.md section 5 C19, defects D7 D9 D16')
 
-NOT_CLAIMED['C18'] = ('partly built: Props/C18.lean proves that none of the per-key RSA checks, BatchGCD / CheckGCD / CheckGCDN1 raise (HLBE ArithmeticError unreachable), C11 proves EC Add/Double total, '
-                      'C16 the bookkeeping; harness/corr/c18.py pushes degenerate well-formed batches through every real check. EC / ECDSA check-layer totality theorems pending')
+# C18 claimed below
 
 # ---- C08 (integer-lattice half; see NOT_CLAIMED until the ECDSA check layer is merged)
 DRAFT_CLAIMS = {}
@@ -241,8 +239,8 @@ DRAFT_CLAIMS = {}
 def draft_claim(pid, text, note, technique, design_ref):
   DRAFT_CLAIMS[pid] = dict(text=text, note=note, technique=technique, design_ref=design_ref)
 
-draft_claim('C08',
-      'Integer-lattice half, Lean theorems (Props/C08.lean) over models of hidden_number_problem.py and cr50_u2f_weakness.py with the LLL answer universally quantified. '
+claim('C08',
+      'Lean theorems (Props/C08.lean). LATTICE HALF over models of hidden_number_problem.py and cr50_u2f_weakness.py with the LLL answer universally quantified. '
       'PRE: for every Bias (MSB, COMMON_PREFIX, COMMON_POSTFIX, GENERALIZED) and all lists a, b, every x, w, n: with k_i = a_i + b_i x - c_i n the planted vector '
       '(n w + 1, x, k_i w ...) resp. (n w + 1, x, e_i w ...) for a common part s, resp. (m, m x, e_i w ...) for a secret multiplier m, is an explicitly given integer combination of the rows of the matrix GetLattice builds '
       '(hnp_pre_msb/prefix/postfix/generalized), entries bounded by B w for nonce parts below B (hnp_pre_bound); the common-suffix case is reduced to the common-prefix one exactly as the code does by multiplying with w^-1 mod n (postfix_reduction); '
@@ -258,11 +256,11 @@ draft_claim('C08',
       'the generator exhaustively for len 0..130 x 8 flag sets x every shipped metadata triple; HiddenNumberProblemForCurve on GMP-LCG emulated nonces (emulation self-checked against the shipped constants), TruncLcgRand nonces and the shipped test samples. '
       'NOT claimed: that LLL returns the planted vector ("number of signatures x biased bits >= 2 x curve size => detected", "as many signatures as the shipped model declares"): hits/misses per family are reported as statistics only.',
       'Trusted: Lean kernel, correspondence harness, fpylll as oracle (answers recorded at lll.reduce), the float expression int(n.bit_length()/len(a)*1.25) as an oracle value (equal to floor(5 bl/(4 len)) on bl<600, len<=130 on every run). '
-      'Pending for the full property: the ECDSA check layer (BiasedBaseCheck / CheckCr50U2f: grouping by issuer, window loop 24/48/120, _IssuerDLogs marking every signature of the issuer, isolation of other issuers).',
+      'CHECK LAYER (BiasedBaseCheck / CheckCr50U2f, proved in Props/C02S.lean and re-exported): the (a,b) handed to the solvers are HiddenNumberParams of each unique (r,s,z); windows 24/48/120 cover every value; if any solver call returns a private key of an issuer key, EVERY signature of that issuer is flagged with that key (all_of_issuer_flagged); a signature\'s verdict depends only on the answers for its own curve group and only a key of its own issuer key can flag it (group_isolation, flagged_only_by_own_key).',
       'Lean 4 proof (pre/post sandwich around the LLL oracle, decision tables, unreachability) + differential correspondence with recorded and adversarial oracle answers',
       'DESIGN.md section 5 C08, section 7')
 
-NOT_CLAIMED['C08'] = ('integer-lattice half done; ECDSA check layer (group isolation, marking all signatures of the issuer) pending')
+# C08 claimed (both halves merged)
 
 
 claim('C10',
@@ -346,3 +344,28 @@ claim('C02',
       'Trusted: Lean kernel, harness. Hypothesis of the theorems: the field prime p (and for order statements n) is prime — validated per run with gmpy2.is_prime. LLL and the float sqrt are oracles quantified away.',
       'Lean 4 proof of soundness over an executable model (refined to Mathlib\'s elliptic-curve group) + differential correspondence with recorded and adversarial oracle answers',
       'DESIGN.md section 5 C02')
+
+
+claim('C17',
+      'Lean theorems (Props/C17.lean): SINGLE checks — in the model every single check is runCheck with a per-artefact verdict, and the annotated artefact at position k of ANY batch equals the result of checking that artefact '
+      'alone (runCheckFrom_pointwise, single_check_alone_eq_batch): position, neighbours, batch order are irrelevant by construction; for the ECDSA nonce checks the verdict is a function of (curve, own issuer key, guess list of '
+      'the own curve group) only (sig_verdict_independent), grouping by issuer is a partition of the indices (issuer_groups_partition). JOINT checks — BatchGCD is permutation-equivariant, a function of the value SET, and unchanged by '
+      'adding coprime moduli (gcd_perm, gcd_set_function, gcd_add_healthy); the cached discrete-log table: after ANY sequence of earlier BatchDL / ExtendedBatchDL / BatchDLOfDifferences calls everything guaranteed from a fresh '
+      'state is still found (dl_history_monotone). That the REAL checks have this shape (no hidden state) is established by differential runs: every real RSA single check on an artefact alone vs in random batches at random '
+      'positions vs after unrelated calls on the singleton check objects; CheckGCD under permutation / healthy addition; EC checks with every order of earlier calls leaving larger or smaller cached tables (model gets the state); '
+      'ECDSA checks with repeated calls of the same check object and same (r,s) under different hashes. NOT proved: for the lattice checks the windowing depends on Python set order and LLL output (oracle order is an argument of the model).',
+      'Trusted: Lean kernel, harness. Python set/dict iteration orders are recorded and passed to the model; theorems hold for every order.',
+      'Lean 4 proof (pointwise structure, equivariance, cache monotonicity) + differential runs alone/batch/history on the implementation',
+      'DESIGN.md section 5 C17')
+
+claim('C18',
+      'Lean theorems (Props/C18.lean and the files it builds on): none of the per-key RSA checks raises for ANY modulus, parameter and well-formed oracle answer (CheckFermat, CheckHighAndLowBitsEqual — the internal ArithmeticError and the '
+      'None % 2 TypeError are unreachable —, CheckContinuedFractions, CheckBitPatterns, CheckPermutedBitPatterns, CheckSmallUpperDifferences, CheckUnseededRand); BatchGCD / CheckGCD / CheckGCDN1 never raise on positive moduli incl. the empty batch '
+      '(after fix D1); the bookkeeping layer is total on fresh artefacts (C16); EC Add / Double / Subtract never raise for any integer coordinates (C11 add_double_total, after fix D3), CheckWeakECPrivateKey and CheckECKeySmallDifference return one '
+      'verdict per key for any mixture of curve ids (weakECPrivateKey_total, smallDifference_total); the ECDSA nonce / LCG / U2F checks never raise when s is invertible mod n — i.e. for r, s in [1, n-1] — for any hash length, issuer key, curve id, batch '
+      'size and solver answer (sig_checks_total), and the Cr50 sanity raise is unreachable (C08). Characterised, outside the property\'s domain: s = 0 (mod n) makes the six BiasedBaseCheck checks raise ZeroDivisionError; moduli under 64 bits make CheckKeypairDenylist raise. '
+      'Every run pushes degenerate well-formed batches (sizes 0,1,2,24; prime/even/square/power-of-two/odd-length moduli with any exponent; every curve id incl. unknown and binary-field; coordinates 0, p, p+x, huge, off-curve, y = 0; duplicates; '
+      'empty and 64-byte hashes; invalid issuer keys) through every real check (the real CheckAll* entry points in the thorough tier) and reports any exception with the batch as replay.',
+      'Trusted: Lean kernel, harness. Exceptions raised INSIDE oracles (fpylll, scipy, sympy) are outside the model; the lattices handed to LLL are triangular with non-zero diagonal.',
+      'Lean 4 proof of totality through Except-valued models + degenerate-batch search on the implementation',
+      'DESIGN.md section 5 C18')
